@@ -159,7 +159,9 @@ func TestVerifProbeEval(t *testing.T) {
 		case "calc":
 			fmt.Fprintln(w, vcalc(tk))
 		case "group":
-			fmt.Fprintln(w, vgroup(tk, caseNo))
+			fmt.Fprintln(w, vgroup(tk, caseNo, false))
+		case "groupd":
+			fmt.Fprintln(w, vgroup(tk, caseNo, true))
 		default:
 			t.Fatalf("unknown case kind in %q", line)
 		}
@@ -169,8 +171,19 @@ func TestVerifProbeEval(t *testing.T) {
 // vgroup evaluates one generated group through the real module: request channel, cache, evaluateConsumerStatus,
 // with the storage reply supplied by the probe.  Both views are requested (full first, so that the filtered view is
 // served from the same cached evaluation).
-func vgroup(t *vtoks, caseNo int) (res string) {
+func vgroup(t *vtoks, caseNo int, decimal bool) (res string) {
 	minimumBits := uint32(t.u64())
+	// minimum-complete reaches the module the way a configuration file delivers it: as a float64 through viper and
+	// Configure's float32(viper.GetFloat64(...)) conversion - never by assigning the field.  In a "groupd" case the
+	// configured value is the DECIMAL text that follows (e.g. 0.7, whose float64 and float32 roundings differ).
+	minimumCfg := float64(math.Float32frombits(minimumBits))
+	if decimal {
+		v, err := strconv.ParseFloat(t.next(), 64)
+		if err != nil {
+			panic(err)
+		}
+		minimumCfg = v
+	}
 	allowed, now := t.u64(), t.i64()
 	ntopics := t.int()
 	topics := make(protocol.ConsumerTopics)
@@ -192,10 +205,10 @@ func vgroup(t *vtoks, caseNo int) (res string) {
 	viper.Set("evaluator.test.class-name", "caching")
 	viper.Set("evaluator.test.expire-cache", 30)
 	viper.Set("evaluator.test.allowed-lag", allowed)
+	viper.Set("evaluator.test.minimum-complete", minimumCfg)
 	module := &CachingEvaluator{Log: zap.NewNop()}
 	module.App = &protocol.ApplicationContext{Logger: zap.NewNop(), StorageChannel: make(chan *protocol.StorageRequest)}
 	module.Configure("test", "evaluator.test")
-	module.minimumComplete = math.Float32frombits(minimumBits)
 	VerifSetClock(now * 1000000000)
 	defer VerifSetClock(0)
 	module.Start()
